@@ -399,3 +399,110 @@ def _min_opt(a, b):
     if b is None:
         return a
     return min(a, b)
+
+
+# ---------------------------------------------------------------------------
+# syntax-directed control dependence ("guards")
+
+
+def parent_map(root: ast.AST) -> Dict[ast.AST, ast.AST]:
+    pm: Dict[ast.AST, ast.AST] = {}
+    for n in ast.walk(root):
+        for ch in ast.iter_child_nodes(n):
+            pm[ch] = n
+    return pm
+
+
+def _always_exits(stmts: List[ast.stmt]) -> bool:
+    """True if the statement list cannot fall through (ends in raise/return/continue/break on all paths)."""
+    if not stmts:
+        return False
+    last = stmts[-1]
+    if isinstance(last, (ast.Raise, ast.Return, ast.Continue, ast.Break)):
+        return True
+    if isinstance(last, ast.If):
+        return _always_exits(last.body) and _always_exits(last.orelse)
+    return False
+
+
+def guards(fn: ast.AST, node: ast.AST, pm: Optional[Dict] = None) -> List[Tuple[ast.AST, bool]]:
+    """Conditions under which `node` executes inside fn: enclosing if/while tests with
+    the branch direction, plus earlier sibling early exits (`if c: raise` => (c, False))
+    and asserts (=> (test, True)).  Syntax-directed dominance; no goto in Python."""
+    pm = pm or parent_map(fn)
+    out: List[Tuple[ast.AST, bool]] = []
+    cur = node
+    while cur is not fn and cur in pm:
+        par = pm[cur]
+        # which statement list holds cur?
+        for fld in ("body", "orelse", "finalbody"):
+            lst = getattr(par, fld, None)
+            if isinstance(lst, list) and cur in lst:
+                idx = lst.index(cur)
+                for prev in lst[:idx]:
+                    if isinstance(prev, ast.If):
+                        if _always_exits(prev.body) and not _always_exits(prev.orelse):
+                            out.append((prev.test, False))
+                        elif prev.orelse and _always_exits(prev.orelse) and not _always_exits(prev.body):
+                            out.append((prev.test, True))
+                    elif isinstance(prev, ast.Assert):
+                        out.append((prev.test, True))
+                if isinstance(par, ast.If):
+                    out.append((par.test, fld == "body"))
+                elif isinstance(par, ast.While) and fld == "body":
+                    out.append((par.test, True))
+        if isinstance(par, ast.ExceptHandler):
+            pass
+        cur = par
+    return out
+
+
+def enclosing(fn: ast.AST, node: ast.AST, kinds, pm: Optional[Dict] = None) -> List[ast.AST]:
+    pm = pm or parent_map(fn)
+    out = []
+    cur = node
+    while cur is not fn and cur in pm:
+        cur = pm[cur]
+        if isinstance(cur, kinds):
+            out.append(cur)
+    return out
+
+
+def truth_table_implies(test: ast.AST, truth: bool, required_atoms: List[str]) -> bool:
+    """Propositional check: whenever `test` evaluates to `truth`, every atom in
+    required_atoms (source text of a sub-expression) is true.  Atoms are the maximal
+    non-boolean sub-expressions of test; and/or/not are interpreted."""
+    atoms: List[str] = []
+
+    def collect(n):
+        if isinstance(n, ast.BoolOp):
+            for v in n.values:
+                collect(v)
+        elif isinstance(n, ast.UnaryOp) and isinstance(n.op, ast.Not):
+            collect(n.operand)
+        else:
+            s = ast.unparse(n)
+            if s not in atoms:
+                atoms.append(s)
+
+    collect(test)
+    for r in required_atoms:
+        if r not in atoms:
+            return False
+    if len(atoms) > 12:
+        raise AnalysisError("condition too large for the propositional check")
+
+    def ev(n, env):
+        if isinstance(n, ast.BoolOp):
+            vals = [ev(v, env) for v in n.values]
+            return all(vals) if isinstance(n.op, ast.And) else any(vals)
+        if isinstance(n, ast.UnaryOp) and isinstance(n.op, ast.Not):
+            return not ev(n.operand, env)
+        return env[ast.unparse(n)]
+
+    import itertools
+    for bits in itertools.product([False, True], repeat=len(atoms)):
+        env = dict(zip(atoms, bits))
+        if ev(test, env) == truth and not all(env[r] for r in required_atoms):
+            return False
+    return True
